@@ -1,5 +1,6 @@
 #!/bin/sh
 # copy the contract mirror into /repo (the engine reads the /repo copies)
 for p in sdf render obj; do
-  [ -f /verif/contracts/${p}_verif_contracts.go ] && cp /verif/contracts/${p}_verif_contracts.go /repo/$p/verif_contracts.go
+  if [ -f /verif/contracts/${p}_verif_contracts.go ]; then cp /verif/contracts/${p}_verif_contracts.go /repo/$p/verif_contracts.go; fi
 done
+exit 0
